@@ -482,6 +482,13 @@ class CallMixin(ExprMixin):
             if name == "clear":
                 wb(V(ty, z3.K(ty.elem.sort(), False)))
                 return [(st, NONEV)]
+            if name == "pop" and not args:
+                self.fork_raise(st, recv.t == z3.K(ty.elem.sort(), False), "KeyError")
+                x = self.fresh(ty.elem, "popped")          # set.pop(): an arbitrary element
+                st.assume(z3.Select(recv.t, x.t))
+                self.assume_valid(st, x)
+                wb(V(ty, z3.Store(recv.t, x.t, False)))
+                return [(st, x)]
             if name == "copy":
                 return [(st, V(ty, recv.t))]
             if name == "update" and args[0].ty == ty:
